@@ -54,6 +54,11 @@ def cases(tier, seed):
     for c in out:
         if c["scheme"] == "offset":
             c["entry"] = "data"  # a tree model measures heights from its most recent tip; the times/events form takes any times
+    # exponential model with a population that was larger in the past by more than the float range (growth * time below -709): N(t) does not
+    # fit a double, the density (log N and the integral of 1/N) does
+    for i in range(24 if tier == "quick" else 200):
+        out.append({"model": "exponential", "n": int(rng.choice([2, 3, 5, 8, 20])), "scheme": str(rng.choice(["iso", "serial", "ties"])), "grid_style": "regular",
+                    "entry": str(rng.choice(["data", "tree"])), "batch": int(rng.choice([0, 0, 2])), "seed": int(rng.integers(2**31)), "steep_decline": float(rng.uniform(720.0, 5000.0))})
     for i in range(6 if tier == "quick" else 40):
         out.append({"model": "piecewise-exponential", "n": int(rng.integers(3, 12)), "scheme": "serial", "grid_style": "regular",
                     "entry": "data", "batch": 0, "seed": int(rng.integers(2**31))})
@@ -159,6 +164,8 @@ def build(case):
         mag = max(mag, 1e-6 / max(gaps.min(), 1e-12)) if len(gaps) else mag
         mag = min(mag, 600.0 / T)
         sign = -1.0 if rng.random() < 0.5 else 1.0
+        if case.get("steep_decline"):
+            sign, mag = -1.0, float(case["steep_decline"]) / T
         g = [sign * mag]
         d["growth"] = [[x * float(rng.uniform(0.5, 1.0))] for x in g * B] if B else g
     elif m == "skyride":
